@@ -847,4 +847,122 @@ theorem rpcPin_effect (cfg : Cfg) (pre : PinMap) (p : Pin) (ch : List Nat) (hw :
     have : q.stored.cid = p.cid := hq
     rw [if_pos this]; rfl
 
+
+/-! ### stored form is preserved by every call -/
+def metaOk (p : Pin) : Prop := (p.opts.metadata.map (·.1)).Nodup
+
+theorem stored_idem (p : Pin) : p.stored.stored = p.stored := by
+  unfold Pin.stored
+  cases he : p.opts.expire <;> simp [he]
+
+theorem wfStored_stored {q : Pin} (h : metaOk q) : q.stored.wfStored = true := by
+  rw [wfStored_iff]; exact ⟨stored_idem q, h⟩
+
+/-- pin-type calls log a pin whose metadata is a map whenever the inputs' are -/
+def MShape (pre : PinMap) (out : Out) : Prop :=
+  out.post = pre ∨ ∃ q : Pin, metaOk q ∧ out.post = PinMap.put q.stored pre
+
+theorem metaOk_updPin {e : Pin} (s d : Nat) (o : Opts) (h : metaOk e) : metaOk (updPin e s d o) := by
+  unfold metaOk; rw [(updPin_fields e s d o).2.2.2.2.2.2.1]; exact h
+
+theorem metaOk_setupFactors (cfg : Cfg) {p : Pin} (h : metaOk p) : metaOk (setupFactors cfg p) := by
+  unfold setupFactors; simp only; split_ifs <;> exact h
+
+theorem mshape_pinUpdate (cfg : Cfg) (pre : PinMap) (s d : Nat) (o : Opts)
+    (hpre : ∀ e ∈ pre, metaOk e) : MShape pre (pinUpdate cfg pre s d o) := by
+  unfold pinUpdate
+  split_ifs
+  · exact Or.inl rfl
+  · split
+    · exact Or.inl rfl
+    · rename_i e he
+      split_ifs
+      · exact Or.inl rfl
+      · exact Or.inr ⟨_, metaOk_updPin s d o (hpre e (get_some_mem he).1), rfl⟩
+
+theorem mshape_pinBody (cfg : Cfg) (pre : PinMap) (p : Pin) (bl ch : List Nat)
+    (hpre : ∀ e ∈ pre, metaOk e) (hp : metaOk p) : MShape pre (pinBody cfg pre p bl ch) := by
+  unfold pinBody
+  simp only
+  have hk : metaOk (keepOrNew (pre.get p.cid) (setupFactors cfg p) bl) := by
+    unfold keepOrNew
+    split
+    · rename_i e he
+      split_ifs
+      · exact hpre e (get_some_mem he).1
+      · exact metaOk_setupFactors cfg hp
+    · exact metaOk_setupFactors cfg hp
+  split_ifs
+  · exact Or.inl rfl
+  · exact Or.inl rfl
+  · exact Or.inl rfl
+  · exact Or.inr ⟨_, metaOk_setupFactors cfg hp, rfl⟩
+  · split
+    · exact Or.inr ⟨{ keepOrNew (pre.get p.cid) (setupFactors cfg p) bl with allocs := ch }, hk, rfl⟩
+    · exact Or.inl rfl
+  · exact Or.inr ⟨_, hk, rfl⟩
+
+theorem mshape_pinOp (cfg : Cfg) (pre : PinMap) (p : Pin) (bl ch : List Nat)
+    (hpre : ∀ e ∈ pre, metaOk e) (hp : metaOk p) : MShape pre (pinOp cfg pre p bl ch) := by
+  unfold pinOp
+  split_ifs
+  · exact Or.inl rfl
+  · split
+    · split_ifs
+      · exact mshape_pinUpdate cfg pre _ _ _ hpre
+      · exact mshape_pinBody cfg pre p bl ch hpre hp
+    · exact mshape_pinBody cfg pre p bl ch hpre hp
+  · exact mshape_pinBody cfg pre p bl ch hpre hp
+
+theorem wfState_iff (m : PinMap) : m.wfState = true ↔ m.wf = true ∧ ∀ e ∈ m, e.wfStored = true := by
+  unfold PinMap.wfState; simp
+
+theorem wfState_of_mshape {pre : PinMap} {out : Out} (hpre : pre.wfState = true) (h : MShape pre out) :
+    out.post.wfState = true := by
+  rw [wfState_iff] at hpre ⊢
+  rcases h with h | ⟨q, hq, h⟩
+  · rw [h]; exact hpre
+  · rw [h]
+    refine ⟨wf_put hpre.1 _, ?_⟩
+    intro e he
+    rcases mem_put he with rfl | he
+    · exact wfStored_stored hq
+    · exact hpre.2 e he
+
+theorem mem_foldl_erase {cs : List Nat} {m : PinMap} {q : Pin} (h : q ∈ cs.foldl PinMap.erase m) : q ∈ m := by
+  induction cs generalizing m with
+  | nil => exact h
+  | cons c t ih =>
+    have := ih h
+    unfold PinMap.erase at this
+    exact List.mem_of_mem_filter this
+
+theorem wfState_unpinOp (cfg : Cfg) (pre : PinMap) (c : Nat) (hpre : pre.wfState = true) :
+    (unpinOp cfg pre c).post.wfState = true := by
+  rw [wfState_iff] at hpre ⊢
+  have hsh := shape_unpinOp cfg pre c
+  refine ⟨shape_wf hsh hpre.1, ?_⟩
+  intro e he
+  apply hpre.2
+  cases hsh with
+  | refused _ hp _ => rw [hp] at he; exact he
+  | logged q _ _ hp hlog =>
+    -- an unpin never logs a pin: its log only holds unpins
+    exfalso
+    unfold unpinOp at hlog
+    split_ifs at hlog
+    all_goals (try (simp [err] at hlog))
+    split at hlog
+    · simp [err] at hlog
+    · split at hlog
+      · simp at hlog
+      · split at hlog
+        · simp [err] at hlog
+        · split at hlog
+          · have := congrArg List.length hlog
+            simp at this
+          · simp [err] at hlog
+      all_goals (simp [err] at hlog)
+  | erased q cs _ _ hp _ => rw [hp] at he; exact mem_foldl_erase he
+
 end CV.C04
